@@ -124,13 +124,18 @@ func init() {
 			goalCarved := func(v map[string]bool) bool {
 				return v["nameEq"] || (v["$has:isPanic"] && !v["isPanic"]) || v["h11"] || v["h01"]
 			}
-			var mkCls func(info *types.Info, errObj types.Object, depth int) func(e ast.Expr) (string, bool)
-			mkCls = func(info *types.Info, errObj types.Object, depth int) func(e ast.Expr) (string, bool) {
+			// nameObjs: string parameters of a helper that receive `<binding symbol>.Str` from its caller
+			// (`handlerMatches(sym.Str, val)`): inside the helper they are the binding's specifier
+			var mkCls func(info *types.Info, errObj types.Object, nameObjs map[types.Object]bool, depth int) func(e ast.Expr) (string, bool)
+			mkCls = func(info *types.Info, errObj types.Object, nameObjs map[types.Object]bool, depth int) func(e ast.Expr) (string, bool) {
 				isStrOf := func(e ast.Expr, o types.Object) bool {
 					se, ok := ast.Unparen(e).(*ast.SelectorExpr)
 					return ok && FieldOfSelector(info, se) == strFld && identObj(info, se.X) == o
 				}
 				isAnyStr := func(e ast.Expr) (types.Object, bool) {
+					if o := identObj(info, e); o != nil && nameObjs[o] {
+						return o, true
+					}
 					se, ok := ast.Unparen(e).(*ast.SelectorExpr)
 					if !ok || FieldOfSelector(info, se) != strFld {
 						return nil, false
@@ -146,7 +151,14 @@ func init() {
 						// a boolean helper of the package given the error: what its true result entails
 						if h != nil && h != isPanic && depth < 2 && h.Pkg() == fn.Pkg() {
 							if po := boundParam(info, ce, h, errObj); po != nil {
-								sub := func(hi *types.Info) func(e ast.Expr) (string, bool) { return mkCls(hi, po, depth+1) }
+								hnames := map[types.Object]bool{}
+								hsig := h.Type().(*types.Signature)
+								for i, a := range ce.Args {
+									if o, ok := isAnyStr(a); ok && o != errObj && i < hsig.Params().Len() {
+										hnames[hsig.Params().At(i)] = true
+									}
+								}
+								sub := func(hi *types.Info) func(e ast.Expr) (string, bool) { return mkCls(hi, po, hnames, depth+1) }
 								sel := c.helperResultEntails(h, true, sub, goalSelected)
 								car := c.helperResultEntails(h, true, sub, goalCarved)
 								switch {
@@ -198,7 +210,7 @@ func init() {
 				if !reach {
 					continue
 				}
-				cls := mkCls(info, errObj, 0)
+				cls := mkCls(info, errObj, nil, 0)
 				selected := fc.edgesEntailing(cls, goalSelected)
 				carved := fc.edgesEntailing(cls, goalCarved)
 				for _, p := range pushes {
